@@ -1,6 +1,7 @@
 import Logrange.Model.Truncate
 /-! Lemmas behind the C09 property theorems. -/
 namespace Logrange.Truncate
+variable {acct : Bool}
 
 theorem psize_nil : psize [] = 0 := rfl
 theorem psize_cons (c : Chunk) (cs : List Chunk) : psize (c :: cs) = c.size + psize cs := by
@@ -257,11 +258,11 @@ inductive Forall2 {α β : Type} (R : α → β → Prop) : List α → List β 
 
 /-- what the global pass may do to one entry of `sortedInfos`: nothing, or take the whole partition -/
 def Taken (ti ti' : Info) : Prop :=
-  ti' = ti ∨ (ti'.after = 0 ∧ ti'.deleted = true ∧ ti'.src = ti.src ∧ ti'.before = ti.before ∧ ti'.latestTs = ti.latestTs)
+  ti' = ti ∨ (ti'.after = 0 ∧ ti'.src = ti.src ∧ ti'.before = ti.before ∧ ti'.latestTs = ti.latestTs)
 
 theorem globalLoop_shape (strict : Bool) (gMin gMax : Nat) (p : Params) :
     ∀ (infos : List Info) (ts : Nat) (db : List Part),
-      Forall2 Taken infos (globalLoop strict gMin gMax p infos ts db).1 := by
+      Forall2 Taken infos (globalLoop acct strict gMin gMax p infos ts db).1 := by
   intro infos
   induction infos with
   | nil => intro ts db; simp only [globalLoop]; exact Forall2.nil
@@ -281,8 +282,10 @@ theorem globalLoop_shape (strict : Bool) (gMin gMax : Nat) (p : Params) :
         | some part =>
           simp only []
           split
-          · exact Forall2.cons (Or.inr ⟨rfl, rfl, rfl, rfl, rfl⟩) (ih _ _)
-          · exact Forall2.cons (Or.inl rfl) (ih _ _)
+          · exact Forall2.cons (Or.inr ⟨rfl, rfl, rfl, rfl⟩) (ih _ _)
+          · split
+            · exact Forall2.cons (Or.inr ⟨rfl, rfl, rfl, rfl⟩) (ih _ _)
+            · exact Forall2.cons (Or.inl rfl) (ih _ _)
       · simp only [h2, if_false]
         exact Forall2.cons (Or.inl rfl) (ih _ _)
     · simp only [h1, if_false]
@@ -290,7 +293,7 @@ theorem globalLoop_shape (strict : Bool) (gMin gMax : Nat) (p : Params) :
 
 /-- the pass does nothing at all when the total is within MAXDBSIZE -/
 theorem globalLoop_idle (strict : Bool) (gMin gMax : Nat) (p : Params) (infos : List Info) (ts : Nat) (db : List Part)
-    (h : ts ≤ p.maxDB) : globalLoop strict gMin gMax p infos ts db = (infos, db) := by
+    (h : ts ≤ p.maxDB) : globalLoop acct strict gMin gMax p infos ts db = (infos, db) := by
   cases infos with
   | nil => simp [globalLoop]
   | cons ti rest =>
@@ -300,7 +303,7 @@ theorem globalLoop_idle (strict : Bool) (gMin gMax : Nat) (p : Params) (infos : 
 
 /-- in a dry run the loop never changes the partitions -/
 theorem globalLoop_dry_db (strict : Bool) (gMin gMax : Nat) (p : Params) (hd : p.dryRun = true) :
-    ∀ (infos : List Info) (ts : Nat) (db : List Part), (globalLoop strict gMin gMax p infos ts db).2 = db := by
+    ∀ (infos : List Info) (ts : Nat) (db : List Part), (globalLoop acct strict gMin gMax p infos ts db).2 = db := by
   intro infos
   induction infos with
   | nil => intro ts db; simp [globalLoop]
@@ -388,6 +391,7 @@ theorem phase1_foldl_db_dry (strict : Bool) (p : Params) (hd : p.dryRun = true) 
 end Logrange.Truncate
 
 namespace Logrange.Truncate
+variable {acct : Bool}
 
 /-! ### the chunk's time hull covers every write notification (two independent `if`s in `chkInfo.update`) -/
 
